@@ -92,4 +92,17 @@ def deleteOld (agg : Nat → Bool) (dtr : Bool) : Nat → Space → Nat → Opti
 def insertNode (sp : Space) (n : Nat) : Space × Bool :=
   if sp.nodes.contains n then (sp, false) else ({ sp with nodes := sp.nodes ++ [n] }, true)
 
+/-- `AddressSpace::insert(node, Some(references))`: nothing happens when the id exists; otherwise the
+node goes in and every (node, type, direction) entry becomes a reference.  `none` = self reference
+panic of `insert_reference`. -/
+def insertNodeWith (sp : Space) (n : Nat) (l : List (Nat × Nat × Bool)) : Option (Space × Bool) :=
+  if sp.nodes.contains n then some (sp, false)
+  else match insertMany sp.refs n l with
+    | some r => some ({ nodes := sp.nodes ++ [n], refs := r }, true)
+    | none => none
+
+/-- `AddressSpace::insert_references` -/
+def insertReferences (sp : Space) (l : List (Nat × Nat × Nat)) : Option Space :=
+  (insertRefs sp.refs l).map fun r => { sp with refs := r }
+
 end OpcuaVerif.C29
